@@ -15,7 +15,11 @@ RULE = ('pattern strings: (a) structured — items built from literal text, nume
         'padding; (b) one-character mutations of (a); (c) uniformly random strings of length 0..12 over the '
         'pattern alphabet (letters, digits, ":", ",", "(", ")", backslash, blank; rarely + - _ TAB NUL); '
         'seq in {absent, True, False, non-bool}; nested lists/tuples of patterns (depth <= 3); scalar, vector '
-        'and product spaces with 2..4 components for element_of / elements_of.  One case = one call; '
+        'and product spaces with 2..4 components for element_of / elements_of; (d) the single-name entry point: '
+        'patterns assembled from 0..3 intended names (letters/digits with escaped blanks, commas, colons inside), '
+        'joined by blank runs (blank, TAB, LF), padded, rarely with a trailing comma — empty and all-blank '
+        'patterns included — through expand_name_patterns, element_of and elements_of on scalar, vector and '
+        'product spaces.  One case = one call; '
         'non-trivial = the pattern contains a range, a separator, an escape or a container (the result is not '
         'the pattern itself); distinct by request line')
 ASSUMPTIONS = [
@@ -24,8 +28,9 @@ ASSUMPTIONS = [
     'expand_name_patterns',
     'ASCII fragment: Python int() also accepts non-ASCII decimal digits and refuses more than 4300 digits; '
     'chr(marker) is assumed to stay below the surrogate range (needs a pattern of > 55000 characters)',
-    'for a container of patterns sympde documents that seq is ignored (sympy propagates it to the items): the '
-    'nesting is compared with symbols(names) without seq, the flattened names with symbols(names, seq=seq)',
+    'for a container of patterns sympde ignores seq (source comment utils.py:159; sympy propagates it to the items): '
+    'open finding C20-container-seq-nesting, reported on every run from a fixed witness; on random containers with an '
+    'explicit seq the flattened names are compared with symbols(names, seq=seq) and the nesting with symbols(names)',
     'element_of / elements_of pair spaces and names with zip(): when the numbers differ the surplus names are '
     'dropped silently; the oracle checks the created prefix and counts these cases, it does not flag them',
 ]
@@ -267,6 +272,38 @@ class Gen:
                 return s, kind
         return 'x', 'structured'
 
+    def words(self, k=None):
+        """pattern assembled from k intended names: (pattern, [names], trailing comma?).  A name is made of
+        letters / digits / '_' and of blanks, commas and colons written as escapes, so that by construction it is
+        ONE name without a range; names are joined by non-empty blank runs; the whole is padded with blanks"""
+        r = self.rng
+        if k is None:
+            k = r.choice([0, 1, 1, 1, 1, 1, 2, 2, 3])
+        names, texts = [], []
+        for _ in range(k):
+            n = r.choice([1, 1, 2, 3, 4])
+            name, text = '', ''
+            for j in range(n):
+                q = r.random()
+                if q < 0.62:
+                    ch = r.choice(LETTERS + '_' + DIGITS)
+                    name += ch
+                    text += ch
+                else:
+                    ch = r.choice(' ' * 4 + ',' * 2 + ':' * 2)
+                    name += ch
+                    text += '\\' + ch
+            names.append(name)
+            texts.append(text)
+        ws = [' ', ' ', ' ', '  ', '\t', ' \n', '   ']
+        pad = lambda: r.choice(['', '', '', ' ', '  ', '\t', ' \n '])
+        out = pad() + ''.join(t + (r.choice(ws) if i + 1 < len(texts) else '') for i, t in enumerate(texts))
+        tcomma = r.random() < 0.08
+        if tcomma:
+            out += pad() + ','
+        out += pad()
+        return out, names, tcomma
+
     def pattern(self, depth=0):
         r = self.rng
         if depth >= 3 or r.random() < (0.0 if depth == 0 else 0.65):
@@ -314,6 +351,17 @@ class Spaces:
         self.S = [ScalarFunctionSpace('V%d' % i, self.dom) for i in range(3)]
         self.V = [VectorFunctionSpace('W%d' % i, self.dom) for i in range(3)]
 
+    def ser(self, sp):
+        from sympde.topology.space import ProductSpace
+        if isinstance(sp, ProductSpace):
+            return [A('product')] + [self.ser(c) for c in sp.spaces]
+        return [A('scalar' if sp in self.S else 'vector'), str(sp.name)]
+
+    def fixed(self):
+        """one scalar, one vector, a 2- and a 3-component product space, with their serialisations"""
+        sps = [self.S[0], self.V[0], self.S[0] * self.V[0], self.S[0] * self.V[0] * self.S[1]]
+        return [(x, self.ser(x)) for x in sps]
+
     def random(self, rng):
         """(space object, serialised space)"""
         from sympde.topology.space import ProductSpace
@@ -348,10 +396,19 @@ class Spaces:
                 return cont if rng.random() < 0.5 else tuple(cont)
             return g.pattern()
         k = rng.random()
-        if k < 0.3:
+        if isinstance(space, ProductSpace):
+            # blank-separated lists with escapes, about as many names as components
+            if k < 0.6:
+                return g.words(max(0, len(space.spaces) + rng.choice([0, 0, 0, 0, -1, 1])))[0]
+            return g.pattern()
+        if k < 0.2:
             return rng.choice('uvwpq') + rng.choice(['', '1', '_a', ':3', ':2, q', ', r, s'])
-        if k < 0.5:
+        if k < 0.3:
             return [rng.choice(['u', 'v:2', 'w, z', 'p_(a:c)']) for _ in range(rng.choice([1, 2, 3]))]
+        if k < 0.6:
+            return g.words()[0]            # the single-name entry point: blanks, escapes, empty patterns
+        if k < 0.75:
+            return g.string()[0]
         return g.pattern()
 
 
@@ -368,6 +425,7 @@ def correspondence(ctx):
     n_nest = 8000 if ctx.thorough else 1000
     n_split = 20000 if ctx.thorough else 3000
     n_elem = 12000 if ctx.thorough else 1500
+    n_words = 8000 if ctx.thorough else 1000
     cases = []     # (kind, line, impl, extra)
 
     # T2: the constants the model was written for are those of the current source
@@ -408,14 +466,15 @@ def correspondence(ctx):
         if isinstance(p, str):
             p = [p]
         one(p, 'nested')
+    for _ in range(n_words):
+        one(g.words()[0], 'words')
+    for p, _ in ELEM_FIXED:
+        one(p, 'words')
 
     # (c) element_of / elements_of
     sp = Spaces()
-    for _ in range(n_elem):
-        space, sser = sp.random(rng)
-        p = sp.names_for(g, rng, space)
-        if isinstance(p, str) and too_big(p):
-            continue
+
+    def elem_case(space, sser, p):
         for op, f in (('elem', element_of), ('elems', elements_of)):
             r = call(f, space, p)
             try:
@@ -423,6 +482,19 @@ def correspondence(ctx):
             except TypeError as e:
                 impl = 'unserialisable %s' % e
             cases.append((op, 'C20 %s %s %s' % (op, dumps(sser), dumps(ser_pat(p))), impl, (p, sser)))
+
+    # the single-name entry point on a fixed scalar, vector and two product spaces
+    for space, sser in sp.fixed():
+        for p, _ in ELEM_FIXED:
+            elem_case(space, sser, p)
+        for _ in range(n_words // 10):
+            elem_case(space, sser, g.words()[0])
+    for _ in range(n_elem):
+        space, sser = sp.random(rng)
+        p = sp.names_for(g, rng, space)
+        if isinstance(p, str) and too_big(p):
+            continue
+        elem_case(space, sser, p)
 
     outs = ctx.driver.run([x[1] for x in cases])
     seen = set()
@@ -536,6 +608,9 @@ def check_pattern(o, p, kw, expand, symbols):
         w2 = names_of(symbols(p))
         if got != w2:
             return key, 'expand_name_patterns(%r, %s) = %r, expected the nesting of symbols(names) = %r' % (p, kw, got, w2)
+        if got != want:
+            # explained by the open finding C20-container-seq-nesting (reported from the fixed witness)
+            o.count('container-seq:nesting-differs-from-sympy(known finding)')
     o.count('agree:' + ('str' if isinstance(p, str) else 'container'))
     return None
 
@@ -613,11 +688,106 @@ FIXED = ['x', 'x,', 'x y', 'x, y', 'x:3', 'x1:4', ':c', 'a:c', 'X:b', 'x:2(1:3)'
          'x5:3', 'x:10', 'x(1:3)', '(x:2)', 'x(a:c)_:2', 'A:C', 'z:B', ':3', '2:4', 'x:a', 'a :c', 'p(0:2)(a:b)q']
 
 
+# single-name entry point: (pattern, expected element_of on a scalar / vector space), worked out by hand:
+# a name, or the exception class
+ELEM_FIXED = [('u', 'u'), ('  u ', 'u'), ('\tu\n', 'u'), ('u\\ v', 'u v'), ('u\\,v', 'u,v'), ('p\\:q', 'p:q'),
+              ('a\\ b\\ c', 'a b c'), (' a\\ b ', 'a b'), ('\\ ', ' '), ('u\\ ', 'u '), ('\\,\\:', ',:'),
+              ('x\\:2', 'x:2'), ('u_1', 'u_1'), ('u(1)', 'u(1)'),
+              ('u v', ValueError), ('u  v w', ValueError), ('u\tv', ValueError), ('u,v', ValueError), ('u:2', ValueError),
+              ('u,', ValueError), ('u ,', ValueError), ('u:1', ValueError), ('u\\ v w', ValueError),
+              ('', ValueError), (' ', ValueError), ('   ', ValueError), ('\t\n', ValueError), (',', ValueError),
+              (' , ', ValueError), ('u:', ValueError), ('u,,v', ValueError)]
+
+
+def check_words(o, spaces, pat, names, tcomma, expand, element_of, elements_of):
+    """the pattern was assembled from the intended names: the expected results follow from the construction
+    alone (neither sympy nor the model is consulted).  Returns a list of (key, what, op)"""
+    from sympde.topology.space import ProductSpace, ScalarFunctionSpace, ScalarFunction, VectorFunction
+    bad = []
+    k = len(names)
+
+    def fn_ok(x, sp, name):
+        cls = ScalarFunction if isinstance(sp, ScalarFunctionSpace) else VectorFunction
+        return type(x) is cls and x.name == name and x.space is sp
+
+    def desc(x):
+        if isinstance(x, (list, tuple)):
+            return type(x)(desc(y) for y in x)
+        if isinstance(x, Exception):
+            return '%s(%s)' % (type(x).__name__, x)
+        return '%s:%r in %s' % (type(x).__name__, getattr(x, 'name', '?'), getattr(getattr(x, 'space', None), 'name', '?'))
+
+    # expand_name_patterns
+    for kw in ({}, {'seq': True}, {'seq': False}):
+        r = call(expand, pat, **kw)
+        seq = kw.get('seq', tcomma)
+        if k == 0:
+            ok = r[0] == 'err' and type(r[1]) is ValueError
+            want = 'ValueError'
+        elif k == 1 and not seq:
+            ok = r[0] == 'ok' and r[1] == names[0]
+            want = repr(names[0])
+        else:
+            ok = r[0] == 'ok' and r[1] == tuple(names)
+            want = repr(tuple(names))
+        if not ok:
+            bad.append(('words-expand:%s:%r' % (sorted(kw.items()), pat),
+                        'expand_name_patterns(%r, %s) = %s; the pattern is made of the %d name(s) %r%s: expected %s' % (
+                            pat, kw, desc(r[1]) if r[0] == 'err' else repr(r[1]), k, names, ' and a trailing comma' if tcomma else '', want), 'expand'))
+        else:
+            o.count('words:expand')
+    for sp in spaces:
+        prod = isinstance(sp, ProductSpace)
+        # element_of: exactly one name for a scalar / vector space, as many names as components for a product
+        r = call(element_of, sp, pat)
+        if not prod:
+            if k == 1 and not tcomma:
+                ok, want = (r[0] == 'ok' and fn_ok(r[1], sp, names[0])), 'the function named %r' % names[0]
+            else:
+                ok, want = (r[0] == 'err' and type(r[1]) is ValueError), 'ValueError (%d names%s)' % (k, ', trailing comma' if tcomma else '')
+        elif k == 0:
+            ok, want = (r[0] == 'err' and type(r[1]) is ValueError), 'ValueError (no name)'
+        elif k == 1 and not tcomma:
+            ok, want = r[0] == 'err', 'an error (one bare name for a product space)'
+        elif k == len(sp.spaces):
+            ok = r[0] == 'ok' and type(r[1]) is tuple and len(r[1]) == k and all(fn_ok(x, c, n) for x, c, n in zip(r[1], sp.spaces, names))
+            want = 'the tuple of functions named %r in %s' % (names, [c.name for c in sp.spaces])
+        else:
+            ok, want = None, ''     # zip() truncates: documented, not judged
+        if ok is None:
+            o.count('words:length-mismatch-not-judged')
+        elif not ok:
+            bad.append(('words-element_of:%s:%r' % (sp.name, pat), 'element_of(%s, %r) = %s; the pattern is made of the %d name(s) %r%s: expected %s' % (
+                sp.name, pat, desc(r[1]), k, names, ' and a trailing comma' if tcomma else '', want), 'elem'))
+        else:
+            o.count('words:element_of:' + ('ok' if r[0] == 'ok' else 'refused'))
+        # elements_of: one function per name, always a tuple
+        r = call(elements_of, sp, pat)
+        if k == 0:
+            ok, want = (r[0] == 'err' and type(r[1]) is ValueError), 'ValueError (no name)'
+        elif not prod:
+            ok = r[0] == 'ok' and type(r[1]) is tuple and len(r[1]) == k and all(fn_ok(x, sp, n) for x, n in zip(r[1], names))
+            want = 'the tuple of %d function(s) named %r' % (k, names)
+        elif k == len(sp.spaces):
+            ok = r[0] == 'ok' and type(r[1]) is tuple and len(r[1]) == k and all(fn_ok(x, c, n) for x, c, n in zip(r[1], sp.spaces, names))
+            want = 'the tuple of functions named %r in %s' % (names, [c.name for c in sp.spaces])
+        else:
+            ok = None
+        if ok is None:
+            o.count('words:length-mismatch-not-judged')
+        elif not ok:
+            bad.append(('words-elements_of:%s:%r' % (sp.name, pat), 'elements_of(%s, %r) = %s; the pattern is made of the %d name(s) %r: expected %s' % (
+                sp.name, pat, desc(r[1]), k, names, want), 'elems'))
+        else:
+            o.count('words:elements_of:' + ('ok' if r[0] == 'ok' else 'refused'))
+    return bad
+
+
 def oracle(ctx, factor, seeds):
     from sympy import symbols
     from sympde.core.utils import expand_name_patterns
     from sympde.topology import element_of, elements_of
-    from sympde.topology.space import ProductSpace
+    from sympde.topology.space import ProductSpace, ScalarFunction, VectorFunction
     o = Oracle()
     rng = ctx.rng
     g = Gen(rng)
@@ -653,8 +823,80 @@ def oracle(ctx, factor, seeds):
             o.fail('product:' + p, 'expand_name_patterns(%r) = %r, expected the lexicographic product %r' % (p, r[1], want), pattern=p, kw={}, op='expand')
         else:
             o.count('product-order')
+    # open finding C20-container-seq-nesting (fixed witness): seq is not passed on to the items of a container
+    o.evaluations += 1
+    wit = ['x', 'y']
+    got, ref = call(expand_name_patterns, wit, seq=True), call(symbols, wit, seq=True)
+    if got[0] == 'ok' and ref[0] == 'ok' and got[1] != names_of(ref[1]):
+        if flat_py(got[1]) == flat_py(names_of(ref[1])) and got[1] == names_of(symbols(wit)):
+            o.fail('container-seq:nesting', 'expand_name_patterns(%r, seq=True) = %r, sympy.symbols gives %r (same names; seq is not '
+                   'passed on to the items of a container)' % (wit, got[1], names_of(ref[1])), pattern=wit, kw={'seq': True}, op='expand')
+        else:
+            o.fail('container-seq:other', 'expand_name_patterns(%r, seq=True) = %r, sympy.symbols gives %r' % (wit, got[1], names_of(ref[1])),
+                   pattern=wit, kw={'seq': True}, op='expand')
+    elif got[0] != ref[0]:
+        o.fail('container-seq:other', 'expand_name_patterns(%r, seq=True) -> %r, sympy.symbols -> %r' % (wit, got[1], ref[1]),
+               pattern=wit, kw={'seq': True}, op='expand')
+    else:
+        o.count('container-seq:agrees-with-sympy')
+
     # element_of / elements_of
     sp = Spaces()
+    fixed_spaces = [x for x, _ in sp.fixed()]
+    simple = fixed_spaces[:2]
+    # (i) the single-name entry point, expectations worked out by hand (element_of on a scalar and a vector space)
+    for p, want in ELEM_FIXED:
+        ref = call(symbols, p)
+        for space in simple:
+            o.evaluations += 1
+            r = call(element_of, space, p)
+            if isinstance(want, str):
+                cls = ScalarFunction if space is simple[0] else VectorFunction
+                ok = r[0] == 'ok' and type(r[1]) is cls and r[1].name == want and r[1].space is space
+                # and sympy reads the pattern as that one name
+                ok_ref = ref[0] == 'ok' and names_of(ref[1]) == want
+            else:
+                ok = r[0] == 'err' and type(r[1]) is want
+                ok_ref = (ref[0] == 'err' and type(ref[1]) is want) or (ref[0] == 'ok' and not isinstance(names_of(ref[1]), str))
+            if not ok_ref:
+                o.fail('elem-fixed-reference:%r' % p, 'the hand-made expectation %r for the pattern %r does not agree with sympy.symbols (%r)' % (
+                    want, p, ref[1]), pattern=p, op='elem')
+            elif not ok:
+                o.fail('elem-fixed:%s:%r' % (space.name, p), 'element_of(%s, %r) = %s; expected %s (sympy.symbols(%r) = %r)' % (
+                    space.name, p, ('%s named %r' % (type(r[1]).__name__, getattr(r[1], 'name', None))) if r[0] == 'ok' else '%s(%s)' % (type(r[1]).__name__, r[1]),
+                    ('one function named %r' % want) if isinstance(want, str) else want.__name__, p,
+                    names_of(ref[1]) if ref[0] == 'ok' else type(ref[1]).__name__), pattern=p, op='elem', space=space.name)
+            else:
+                o.count('elem-fixed:' + ('ok' if isinstance(want, str) else 'refused'))
+        for space in fixed_spaces:
+            for plural, f in ((False, element_of), (True, elements_of)):
+                o.evaluations += 1
+                bad = check_elements(o, space, p, plural, f, symbols)
+                if bad:
+                    o.fail(bad[0], bad[1], pattern=p, op='elems' if plural else 'elem',
+                           space=[s.name for s in space.spaces] if isinstance(space, ProductSpace) else space.name)
+    # (ii) patterns assembled from intended names: by construction, and against sympy.symbols
+    for i in range((6000 if ctx.thorough else 800) * factor):
+        spaces = fixed_spaces if i % 4 == 0 else [sp.random(rng)[0] for _ in range(2)]
+        spaces = [x for x in spaces if hasattr(x, 'name')]
+        k = None
+        if spaces and isinstance(spaces[0], ProductSpace) and rng.random() < 0.5:
+            k = len(spaces[0].spaces)
+        pat, names, tcomma = g.words(k)
+        o.evaluations += 3 + 2 * len(spaces)
+        for key, what, op in check_words(o, spaces, pat, names, tcomma, expand_name_patterns, element_of, elements_of):
+            o.fail(key, what, pattern=pat, op=op, names=names)
+        for kw in ({}, {'seq': True}, {'seq': False}):
+            bad = check_pattern(o, pat, kw, expand_name_patterns, symbols)
+            if bad:
+                o.fail(bad[0], bad[1], pattern=pat, kw=kw, op='expand')
+        for space in spaces:
+            for plural, f in ((False, element_of), (True, elements_of)):
+                o.evaluations += 1
+                bad = check_elements(o, space, pat, plural, f, symbols)
+                if bad:
+                    o.fail(bad[0], bad[1], pattern=pat, op='elems' if plural else 'elem',
+                           space=[s.name for s in space.spaces] if isinstance(space, ProductSpace) else space.name)
     ne = (8000 if ctx.thorough else 1000) * factor
     extra = [(sp.S[0], 'u'), (sp.V[0], 'F'), (sp.S[0], 'u, v'), (sp.S[0] * sp.V[0], 'u, F'), (sp.S[0] * sp.V[0] * sp.S[1], 'p:3'),
              (sp.V[1] * sp.S[2], ['a:2', 'b:3']), (sp.S[1], ['u', 'v:2'])]
